@@ -152,54 +152,64 @@ func C12(ctx *core.Ctx) {
 				ctx.Violate("C12.R1", fname+" › direct embedded "+name, r.IPos(c.Instr), "appends an unknown number of bytes to the embedded buffer without going through the guarded Write")
 				continue
 			}
-			// CFG shape: every edge into the block of the call is the pass edge of `limit > 0` or of the exact size guard
+			// every edge into the block of the embedded append must entail "unbounded (limit = 0)" or
+			// "length after the append ≤ limit"; every edge into a too-large return must entail
+			// "limit > 0 and length after the append > limit" (both decided by the linear prover, so
+			// if/else, inverted and switch forms of the same guard are all accepted)
 			b := c.Instr.Block()
-			okShape := len(b.Preds) > 0
+			okShape := true
 			detail := ""
-			for _, p := range b.Preds {
-				iff, isIf := p.Instrs[len(p.Instrs)-1].(*ssa.If)
-				if !isIf || p.Succs[1] != b {
-					okShape, detail = false, "the embedded append is reachable on an edge that is not the pass edge of a limit test"
-					break
+			lenCall := findBufferLen(fn)
+			var limitLoad ssa.Value
+			ssax.Instrs(fn, func(in ssa.Instruction) {
+				if u, ok := in.(*ssa.UnOp); ok && fieldNameOfValue(u) == "limit" && limitLoad == nil {
+					limitLoad = u
 				}
-				bo, isB := iff.Cond.(*ssa.BinOp)
-				if !isB {
-					okShape, detail = false, "unrecognised limit test"
-					break
+			})
+			edgeEnv := func(p, succ *ssa.BasicBlock) *bounds.Env {
+				e := pr.EnvAt(p.Instrs[len(p.Instrs)-1])
+				if iff, isIf := p.Instrs[len(p.Instrs)-1].(*ssa.If); isIf && p.Succs[0] != p.Succs[1] {
+					e.AddCond(iff.Cond, p.Succs[0] == succ)
 				}
-				if fieldNameOfAddr(bo.X) == "limit" && bo.Op == token.GTR {
-					if z, k := ssax.ConstInt(bo.Y); k && z == 0 {
-						continue // limit > 0 is false: unbounded
-					}
-				}
-				// exact size guard: not taken ⇒ Len + n ≤ limit ; taken ⇒ Len + n > limit
-				e := pr.EnvAt(iff)
-				lenCall := findBufferLen(fn)
-				if lenCall == nil {
-					okShape, detail = false, "guard does not read the current buffer length"
-					break
-				}
+				return e
+			}
+			sizeAfter := func(e *bounds.Env) lin.Term {
 				var add lin.Term = lin.Const(1)
 				if embeddedAppenders[name] == "len(arg)" {
 					add = e.LenOf(c.Common.Args[1])
 				}
-				S := e.Term(lenCall).Add(add)
-				var L lin.Term
-				if fieldNameOfAddr(bo.Y) == "limit" {
-					L = e.Term(bo.Y)
-				} else if fieldNameOfAddr(bo.X) == "limit" {
-					L = e.Term(bo.X)
-				} else {
-					okShape, detail = false, "size guard does not compare with the limit field"
-					break
+				return e.Term(lenCall).Add(add)
+			}
+			if lenCall == nil || limitLoad == nil {
+				okShape, detail = false, "the method appends to the embedded buffer without consulting the current length and the limit"
+			} else {
+				preds := b.Preds
+				if len(preds) == 0 {
+					okShape, detail = false, "the embedded append is unconditional"
 				}
-				eT, eF := pr.EnvAt(iff), pr.EnvAt(iff)
-				eT.AddCond(iff.Cond, true)
-				eF.AddCond(iff.Cond, false)
-				if !(eT.Prove(lin.GT(S, L, "")) && eF.Prove(lin.LE(S, L, ""))) {
+				for _, p := range preds {
+					e := edgeEnv(p, b)
+					L := e.Term(limitLoad)
+					if e.Prove(lin.LE(L, lin.Const(0), "")) {
+						continue // unbounded
+					}
+					if e.Prove(lin.LE(sizeAfter(e), L, "")) {
+						continue // fits
+					}
 					okShape = false
-					detail = "the guard is not equivalent to (current length + bytes appended) > limit — with this guard a write can push the buffer past its limit, or a write that still fits is rejected"
-					break
+					detail = "the embedded append is reachable on a path where neither 'limit = 0' nor '(current length + bytes appended) ≤ limit' is established: a write can push the buffer past its limit"
+				}
+				// tightness: every rejecting return is reached only when the write really does not fit
+				for blk, kind := range tooLargeReturns(r, fn) {
+					_ = kind
+					for _, p := range blk.Preds {
+						e := edgeEnv(p, blk)
+						L := e.Term(limitLoad)
+						if !(e.Prove(lin.GE(L, lin.Const(1), "")) && e.Prove(lin.GT(sizeAfter(e), L, ""))) {
+							okShape = false
+							detail = "the too-large error can be returned for a write that still fits (or with limit 0): a message within the limit is rejected"
+						}
+					}
 				}
 			}
 			_ = n
